@@ -51,6 +51,11 @@ pub fn alphabet() -> Vec<&'static str> {
     "date and time(\"2020-01-01T10:00:00Z\")",
     "date and time(\"2020-01-01T11:00:00+01:00\")",
     "date and time(\"2020-01-01T12:00:00+01:00\")",
+    // close instants on different sides of a daylight-saving transition and of a change of date
+    "date and time(\"2021-03-28T01:45:00Z\")",
+    "date and time(\"2021-03-28T03:30:00@Europe/Warsaw\")",
+    "date and time(\"2021-03-28T01:30:00Z\")",
+    "date and time(\"2021-03-27T23:30:00-02:00\")",
     "duration(\"P1D\")",
     "duration(\"PT24H\")",
     "duration(\"P0D\")",
